@@ -25,11 +25,15 @@ Put(a, n, v) == [m \in (DOMAIN a) \cup {n} |-> IF m = n THEN v ELSE a[m]]
 OpOf(id) == LET i == CHOOSE i \in 1..Len(Recs[h].events) : Recs[h].events[i].t = "call" /\ Recs[h].events[i].id = id
             IN Recs[h].events[i].op
 
+\* where a losing put's bytes go: <path>#<content>, unless that name already holds OTHER content (a client may have written
+\* there as to any path) - nothing acknowledged or preserved is ever replaced by a write that does not commit
+ConfKey(a, op) == IF Val(a, op.conf) \in {"none", op.c} THEN op.conf ELSE op.conf \o "~1"
+
 Apply(op, a) ==
   CASE op.kind = "put" ->
          IF ~op.valid THEN [a |-> a, r |-> [r |-> "error"]]
          ELSE IF Val(a, op.path) = op.exp THEN [a |-> Put(a, op.path, op.c), r |-> [r |-> "committed", cur |-> op.c]]
-         ELSE [a |-> Put(a, op.conf, op.c), r |-> [r |-> "conflict", cur |-> Val(a, op.path)]]
+         ELSE [a |-> Put(a, ConfKey(a, op), op.c), r |-> [r |-> "conflict", cur |-> Val(a, op.path)]]
     [] op.kind = "delete" ->
          IF Val(a, op.path) = op.exp THEN [a |-> Put(a, op.path, "none"), r |-> [r |-> "deleted", cur |-> "none"]]
          ELSE [a |-> a, r |-> [r |-> "refused", cur |-> Val(a, op.path)]]
